@@ -579,7 +579,9 @@ func c12WalkJournal(f int, incs []int, long bool, ver int) *m.Journal {
 	// every file declares its own format for EUR and its own postings for the payee "shared":
 	// which one the workspace shows depends on the order of the include directives alone
 	j.Entries = append(j.Entries,
-		m.Entry{Dir: &m.Directive{Kind: "account", Account: acct}, Blank: 1},
+		// the file's own declarations stay the same from version to version (what changes is what it
+		// includes and what it books): nothing in the file itself says that the declarations in force changed
+		m.Entry{Dir: &m.Directive{Kind: "account", Account: fmt.Sprintf("assets:f%d", f)}, Blank: 1},
 		m.Entry{Dir: &m.Directive{Kind: "commodity", Fmt: &m.Fmt{Sym: "EUR", Space: true, Dec: ".", Decimals: f + 1}}, Blank: 1},
 		m.Entry{Tx: &m.Tx{Date: m.Date{Y: 2024, M: 1, D: f + 1, Sep: "-", Pad: true}, Payee: "shared",
 			Body: []m.BodyItem{{P: &m.Posting{Account: fmt.Sprintf("expenses:from f%d", f), Amt: &m.Amount{Q: m.Num{Mant: "1"}, Sym: "EUR", SymSpace: true}, Indent: "    ", Sep: "  "}},
